@@ -151,31 +151,20 @@ func (Engine) Run(t *tape.Tape, o eng.Opts) *eng.Result {
 			lastEntered := -1
 			status := 0
 			started := map[int]bool{}
-			// Recovery only protects what runs inside its own call of Next(). epoch counts the
-			// Next() calls and returns of handlers placed in front of Recovery; Recovery's frame
-			// lives inside the epoch in which the first handler behind it started.
-			epoch, recEpoch := 0, -1
-			firstInner := -1
-			epochAt := make([]int, len(q.Events)+1)
+			// Recovery only protects what runs inside its own call of Next(): its dynamic extent is
+			// recorded by the wrapper the builder puts around it (Recovery( ... )Recovery events).
+			inFrame := make([]bool, len(q.Events)+1)
+			depth := 0
 			for i, e := range q.Events {
-				epochAt[i] = epoch
-				x := idxOf(int(e.H))
 				switch e.K {
-				case world.EvNextCall, world.EvNextRet, world.EvNextPanic, world.EvSwallow:
-					if x >= 0 && x < recIdx {
-						epoch++
-					}
-				case world.EvEnter:
-					// Recovery is invoked the first time the cursor passes it, and the next thing
-					// that happens is the handler behind it starting (or failing to resolve, see
-					// below): the first evidence of activity behind Recovery dates its frame.
-					if x > recIdx && recEpoch < 0 {
-						recEpoch = epoch
-						firstInner = i
-					}
+				case world.EvRecEnter:
+					depth++
+				case world.EvRecExit:
+					depth--
 				}
+				inFrame[i] = depth > 0
 			}
-			epochAt[len(q.Events)] = epoch
+			inFrame[len(q.Events)] = depth > 0
 			unwinding := false
 			for i, e := range q.Events {
 				switch e.K {
@@ -184,6 +173,12 @@ func (Engine) Run(t *tape.Tape, o eng.Opts) *eng.Result {
 					started[lastEntered] = true
 					unwinding = false
 				case world.EvSpyHeader:
+					if !unwinding && e.A == 500 && inFrame[i] && missingIdx >= 0 && fromRecovery(q.Events, i) {
+						// Recovery answers a panic nobody raised through the simulator and no simulated
+						// frame saw pass: the failed dependency resolution of the handler it invoked next
+						res.Faults["di-missing"]++
+						panics = append(panics, panicInfo{evIdx: i, chain: missingIdx, kind: "di-missing", statusBefore: status})
+					}
 					if status == 0 {
 						status = int(e.A)
 					}
@@ -216,39 +211,6 @@ func (Engine) Run(t *tape.Tape, o eng.Opts) *eng.Result {
 					}
 				}
 			}
-			// A failed dependency resolution that Recovery answers with no simulated frame in
-			// between leaves no unwinding events: recognise it by Recovery's own body.
-			if missingIdx >= 0 {
-				hasDI := false
-				for _, pi := range panics {
-					if pi.kind == "di-missing" {
-						hasDI = true
-					}
-				}
-				if !hasDI && (bytes.Contains(q.W.Body, []byte("unable to invoke")) || (len(panics) == 0 && q.W.Code == 500 && bytes.Equal(q.W.Body, []byte("Internal Server Error")))) {
-					at, st := len(q.Events), 0
-					for i := len(q.Events) - 1; i >= 0; i-- {
-						if q.Events[i].K == world.EvSpyHeader || q.Events[i].K == world.EvSpyWrite {
-							at = i
-						} else {
-							break
-						}
-					}
-					for i := 0; i < at; i++ {
-						if q.Events[i].K == world.EvSpyHeader && st == 0 {
-							st = int(q.Events[i].A)
-						}
-					}
-					res.Faults["di-missing"]++
-					panics = append(panics, panicInfo{evIdx: at, chain: missingIdx, kind: "di-missing", statusBefore: st})
-				}
-			}
-			for _, pi := range panics {
-				if pi.kind == "di-missing" && pi.chain > recIdx && pi.evIdx <= len(q.Events) && (firstInner < 0 || pi.evIdx < firstInner) {
-					recEpoch, firstInner = epochAt[pi.evIdx], pi.evIdx
-					break
-				}
-			}
 			if len(panics) == 0 {
 				// bystander or follow-up: compared with the clean twin below
 				continue
@@ -265,7 +227,7 @@ func (Engine) Run(t *tape.Tape, o eng.Opts) *eng.Result {
 				continue
 			}
 			sawPanic[ti] = true
-			outside := func(pi panicInfo) bool { return recEpoch >= 0 && epochAt[pi.evIdx] != recEpoch }
+			outside := func(pi panicInfo) bool { return !inFrame[pi.evIdx] }
 			first := panics[0]
 			for _, pi := range panics { // the first source that Recovery's frame is responsible for
 				if !outside(pi) {
@@ -530,4 +492,26 @@ func itoa(i int) string {
 		return string(rune('0' + i))
 	}
 	return itoa(i/10) + string(rune('0'+i%10))
+}
+
+// fromRecovery reports whether the status event at i was sent by the Recovery middleware itself
+// rather than by a simulated handler: a handler's own write is preceded by its attempt event
+// (possibly with BeforeFunc events in between), a rendered return value by ret+exit.
+func fromRecovery(ev []world.Ev, i int) bool {
+	j := i - 1
+	for j >= 0 && ev[j].K == world.EvBefore {
+		j--
+	}
+	if j < 0 {
+		return true
+	}
+	switch ev[j].K {
+	case world.EvAttempt:
+		return false
+	case world.EvExit:
+		if j > 0 && ev[j-1].K == world.EvRet {
+			return false
+		}
+	}
+	return true
 }
